@@ -321,9 +321,15 @@ func (a *An) globalEscapes(rule string) {
 						if !pointerLike(ar.Type()) {
 							continue
 						}
-						p := a.C.pathOf(ar)
-						gl, isG := p.Root.(*ssa.Global)
-						if !isG || (gl.Pkg != a.C.Otr && gl.Pkg != a.C.Sexp) {
+						// every alternative of a merged value counts (r = the caller's reader, or a package-level one)
+						var gl *ssa.Global
+						for _, alt := range phiAlternatives(ar, 0) {
+							p := a.C.pathOf(alt)
+							if g2, isG := p.Root.(*ssa.Global); isG && (g2.Pkg == a.C.Otr || g2.Pkg == a.C.Sexp) {
+								gl = g2
+							}
+						}
+						if gl == nil {
 							continue
 						}
 						key := "arg|" + a.C.Name(f) + "|" + name + "|" + gl.Name()
@@ -353,4 +359,20 @@ func (a *An) globalEscapes(rule string) {
 	}
 	sort.Strings(keys)
 	R.Floor(rule, 5)
+}
+
+// phiAlternatives: the values that can flow into v through phis (v itself when it is none).
+func phiAlternatives(v ssa.Value, d int) []ssa.Value {
+	phi, ok := v.(*ssa.Phi)
+	if !ok || d > 4 {
+		return []ssa.Value{v}
+	}
+	var out []ssa.Value
+	for _, e := range phi.Edges {
+		if e == v {
+			continue
+		}
+		out = append(out, phiAlternatives(e, d+1)...)
+	}
+	return out
 }
